@@ -257,7 +257,7 @@ def run(ctx):
     ctx.notes.append('oversize stream: %d steps, buffer stays below %d' % (len(big[0].steps), CAP))
     # arbitrary op sequences: implementation vs model, per step, under the C07 projection
     m = 20000 if ctx.thorough else 3000
-    rlines = ['rp ' + ' '.join(random_history(rng)) for _ in range(m)]
+    rlines = ['rp ' + ' '.join(random_history(rng)) for _ in range(m)] + common.cg_lines(ctx, ('rp ',))
     impl, model = ctx.run_both(rlines)
     nd = 0
     for ln, a, b in zip(rlines, impl, model):
